@@ -325,6 +325,14 @@ def run(ck):
     if ck.thorough:
         ck.leanchecker(["NfcVerif.Props.C05"])
     model = Model("drv_c05")
+    from sims.dlc_pair import Pair, HandshakeFailed
+    try:
+        Pair(1, 1, 128, 128, 128, True).cleanup()
+    except HandshakeFailed as e:
+        ck.fail("dlc-handshake-failed", "CONNECT / CC between two controllers does not establish a connection: %s" % e,
+                {"cfg": [1, 1, 128, 128, 128, True], "ops": []})
+        ck.tie("two-endpoint DLC model vs two real controllers (histories)", cases=0, disagreements=0)
+        return
 
     walks = []
     # ---- bounded exhaustive short histories
